@@ -191,7 +191,7 @@ def rule_register_updates(ctx, rule, fv, who, table_const, rev_const, f, r, l, m
     fw = [(n, t) for n, t in self_field_writes(fv, f) if t != L(0)]
     rw = [(n, t) for n, t in self_field_writes(fv, r) if t != L(0)]
     exp_f = B("&", B("|", B("<<", SF(f), L(2)), c), SF(mask))
-    exp_r = B("|", B(">>", SF(r), L(2)), B("<<", B("^", c, ("const", rev_const)), SF(shift)))
+    exp_r = B("|", B(">>", SF(r), L(2)), B("<<", B("^", c, L(3)), SF(shift)))
     ok = True
     key = "%s.%s" % (who, f)
     if len(fw) != 1:
